@@ -401,9 +401,10 @@ class SED(object):
         apertures[np.log10(sed_wav) < log10_ap_interp.x[0]] = 10. ** log10_ap_interp.y[0]
         apertures[np.log10(sed_wav) > log10_ap_interp.x[-1]] = 10. ** log10_ap_interp.y[-1]
 
-        # 10 ** log10(x) can exceed x by rounding, so clamp to the largest
-        # aperture again to stay inside the interpolation range
-        apertures = np.minimum(apertures, sed_apertures.max())
+        # 10 ** log10(x) can differ from x by rounding, so clamp to the
+        # tabulated aperture range again to stay inside the interpolation range
+        # (apertures that are genuinely too small were rejected above)
+        apertures = np.clip(apertures, sed_apertures.min(), sed_apertures.max())
 
         # Interpolate and return only diagonal elements
         return flux_interp(apertures).diagonal()
